@@ -3,7 +3,7 @@
    its slot has fired since that poll began.  It stays false for all sizes, behaviours and histories in the selective strategy. *)
 From Coq Require Import List Arith Bool.
 Import ListNotations.
-Require Import ScanFull InstsFull ObligJoin ObligMZ ObligGroups C11Groups.
+Require Import ScanFull InstsFull ObligJoin ObligMZ ObligGroups C11Groups GhostTrace.
 
 Theorem C16_join tuple tryj scs ops : g_bad16 _ (join_world true tryj tuple scs ops) = false.
 Proof. exact (join_C16 tuple tryj scs ops). Qed.
@@ -14,6 +14,28 @@ Proof. exact (zip_C16 scs ops). Qed.
 Theorem C16_group stream cap0 ops : g_bad16 _ (group_world true stream cap0 ops) = false.
 Proof. exact (group_C16 stream cap0 ops). Qed.
 Print Assumptions C16_join. Print Assumptions C16_merge. Print Assumptions C16_zip. Print Assumptions C16_group.
+
+
+(* ---- the same property as a statement about the observable TRACE alone (Proofs/GhostTrace.v, Model/ScanFull.v Section GhostTrace).
+   mon16 n t runs a monitor over a complete trace t (n = number of children; 0 for a group): it recomputes from the events alone, per readiness slot,
+   "has been polled", "last answer was Pending" and "a waker handed out for this slot has fired since that poll began" (a fire event f<c>.<k> is
+   resolved through the table of wakers handed out so far; an insert into slot k resets the slot), and fails at the first child poll `EC m (WSub i)` of a
+   slot that was polled, answered Pending and has not fired.  It accepts EVERY trace the model produces - and the trace is what the correspondence
+   check compares with the crate, token for token; tools/monitors.py mon_C16 evaluates the same predicate on the crate's traces. *)
+Theorem C16_join_trace tuple tryj scs ops : mon16 (length scs) (tr _ (join_world true tryj tuple scs ops)) = true.
+Proof. exact (join_C16_trace tuple tryj scs ops). Qed.
+Theorem C16_merge_trace scs ops : mon16 (length scs) (tr _ (merge_world true scs ops)) = true.
+Proof. exact (merge_C16_trace scs ops). Qed.
+Theorem C16_zip_trace scs ops : mon16 (length scs) (tr _ (zip_world true scs ops)) = true.
+Proof. exact (zip_C16_trace scs ops). Qed.
+Theorem C16_group_trace stream cap0 ops : mon16 0 (tr _ (group_world true stream cap0 ops)) = true.
+Proof. exact (group_C16_trace stream cap0 ops). Qed.
+Print Assumptions C16_join_trace. Print Assumptions C16_merge_trace. Print Assumptions C16_zip_trace. Print Assumptions C16_group_trace.
+
+(* the monitor does reject a trace in which a pending child is re-polled without its waker having fired *)
+Example C16_monitor_rejects : mon16 2 [EB 0; EC 0 (WSub 0); EAns APend; EC 1 (WSub 1); EAns APend; EEndP; EB 1; EC 0 (WSub 0); EAns APend; EEndP] = false
+  /\ mon16 2 [EB 0; EC 0 (WSub 0); EAns APend; EC 1 (WSub 1); EAns APend; EEndP; EO; EF 0 0; EW 0; EB 1; EC 0 (WSub 0); EAns APend; EEndP] = true.
+Proof. vm_compute. split; reflexivity. Qed.
 
 (* a spurious poll of the combinator polls nobody: after the first poll every child has answered Pending and nothing fired *)
 Example C16_witness :
